@@ -20,8 +20,12 @@ use std::time::{Duration, Instant};
 
 const KINDS: &[&str] = &[
     "format", "format_flat", "tree_format", "diagnostic_annotated", "hex", "register_tags", "kv_lookup", "fn_lookup", "param_lookup", "encode", "ur",
-    "kv_held_format",
+    "kv_held_format", "custom_tag",
 ];
+
+/// Tags registered by `custom_tag` calls of this process (checked after all threads have finished).
+static CUSTOM: std::sync::Mutex<Vec<u64>> = std::sync::Mutex::new(Vec::new());
+static NEXT_CUSTOM: std::sync::atomic::AtomicU64 = std::sync::atomic::AtomicU64::new(0x7000_0000);
 
 fn sample() -> Envelope {
     Envelope::new("Alice")
@@ -86,6 +90,16 @@ fn run_kind(kind: &str) -> String {
             let name = binding.as_ref().unwrap().known_value_named("note").map(|k| k.value()).unwrap_or(0);
             let second = e.format();
             format!("{}|{}", name, second)
+        }
+        "custom_tag" => {
+            // an application registers a tag of its own in the global format context
+            use dcbor::prelude::*;
+            let v = NEXT_CUSTOM.fetch_add(1, std::sync::atomic::Ordering::SeqCst);
+            bc_envelope::with_format_context_mut!(|c: &mut bc_envelope::FormatContext| {
+                c.tags_mut().insert(Tag::new(v, format!("verif-{}", v)));
+            });
+            CUSTOM.lock().unwrap().push(v);
+            "ok".into()
         }
         "encode" => hex::encode(e.tagged_cbor().to_cbor_data()),
         "ur" => {
@@ -247,6 +261,16 @@ fn main() {
                     Err(_) => results.push(json!({"thread": t, "panic": true})),
                 }
             }
+            // no lost update: every tag an application registered is still in the global context
+            {
+                use dcbor::prelude::*;
+                let mine = CUSTOM.lock().unwrap().clone();
+                let lost: Vec<u64> = bc_envelope::with_format_context!(|c: &bc_envelope::FormatContext| {
+                    mine.iter().filter(|v| c.tags().tag_for_value(**v).is_none()).cloned().collect()
+                });
+                hooks::emit(if lost.is_empty() { "tags_kept" } else { "tags_lost" }, "FC");
+                results.push(json!({"thread": 999, "calls": [{"kind": "custom_tags_kept", "text": if lost.is_empty() { "same".to_string() } else { format!("LOST {} of {}", lost.len(), mine.len()) }}]}));
+            }
             let ev = hooks::drain();
             println!("{}", json!({"results": results, "events": events_json(&ev)}));
         }
@@ -278,6 +302,12 @@ fn main() {
                             for c in th["calls"].as_array().unwrap() {
                                 calls_done += 1;
                                 let k = c["kind"].as_str().unwrap();
+                                if k == "custom_tags_kept" {
+                                    if c["text"].as_str() != Some("same") {
+                                        problems.push(json!({"round": r, "threads": n, "seed": s, "what": format!("tags registered by the application while other threads ran are gone from the global format context ({}): a later formatting call returns another text than it returns when run alone", c["text"].as_str().unwrap_or(""))}));
+                                    }
+                                    continue;
+                                }
                                 if k == "shared_envelope" {
                                     if c["text"].as_str() != Some("same") {
                                         problems.push(json!({"round": r, "threads": n, "seed": s, "what": "an envelope shared between threads gave a different digest / encoding / structure on one of them"}));
